@@ -120,6 +120,8 @@ func (o op) String() string {
 		return "epoch+1"
 	case "evac":
 		return fmt.Sprintf("evacuate(s%d)", o.Shard)
+	case "detach":
+		return fmt.Sprintf("evacuate+detach(s%d)", o.Shard)
 	}
 	return o.K
 }
@@ -214,7 +216,7 @@ func genHist(t *rapid.T, withObjExp, withRace bool) hist {
 		return nObj + nLock + rapid.IntRange(0, nt-1).Draw(t, "oldtomb")
 	}
 	nops := rapid.IntRange(2, 14).Draw(t, "nops")
-	kinds := []string{"put", "put", "lock", "lock", "lock", "tomb", "tomb", "tomb", "mode", "mode", "mode", "failput", "gc", "gc", "epoch", "evac"}
+	kinds := []string{"put", "put", "lock", "lock", "lock", "tomb", "tomb", "tomb", "mode", "mode", "mode", "failput", "gc", "gc", "epoch", "evac", "detach"}
 	if withRace {
 		kinds = append(kinds, "race", "race", "race")
 	}
@@ -251,7 +253,7 @@ func genHist(t *rapid.T, withObjExp, withRace bool) hist {
 		case "failput":
 			o.Shard = rapid.IntRange(0, h.N-1).Draw(t, "shard")
 			o.On = rapid.Bool().Draw(t, "on")
-		case "gc", "evac":
+		case "gc", "evac", "detach":
 			o.Shard = rapid.IntRange(0, h.N-1).Draw(t, "shard")
 		}
 		h.Ops = append(h.Ops, o)
@@ -265,10 +267,21 @@ func genHist(t *rapid.T, withObjExp, withRace bool) hist {
 		var chain []op
 		chain = append(chain, op{K: "put", ID: tgt})
 		sh := rapid.IntRange(0, h.N-1).Draw(t, "chain-shard")
-		if rapid.Bool().Draw(t, "chain-viafail") {
-			chain = append(chain, op{K: "failput", Shard: sh, On: true})
-		} else {
-			chain = append(chain, op{K: "mode", Shard: sh, Mode: rapid.SampledFrom([]string{"ro", "ro", "degro"}).Draw(t, "chain-mode")})
+		// variant "only": ONLY shard sh is writable when the lock arrives (so it is
+		// the single shard knowing the lock) and it is evacuated and detached
+		// (engine rebuilt over the remaining shards) before the tombstone
+		only := rapid.IntRange(0, 9).Draw(t, "chain-only") < 3
+		viaFail := rapid.Bool().Draw(t, "chain-viafail")
+		roMode := rapid.SampledFrom([]string{"ro", "ro", "degro"}).Draw(t, "chain-mode")
+		for k := 0; k < h.N; k++ {
+			if (k == sh) == only {
+				continue
+			}
+			if viaFail {
+				chain = append(chain, op{K: "failput", Shard: k, On: true})
+			} else {
+				chain = append(chain, op{K: "mode", Shard: k, Mode: roMode})
+			}
 		}
 		var li int
 		if nl < nLock {
@@ -284,13 +297,20 @@ func genHist(t *rapid.T, withObjExp, withRace bool) hist {
 			chain[0].ID = tgt
 		}
 		chain = append(chain, op{K: "lock", ID: li})
-		if rapid.IntRange(0, 3).Draw(t, "chain-restore") != 0 {
-			chain = append(chain, op{K: "failput", Shard: sh, On: false}, op{K: "mode", Shard: sh, Mode: "rw"})
+		if only || rapid.IntRange(0, 3).Draw(t, "chain-restore") != 0 {
+			for k := 0; k < h.N; k++ {
+				if (k == sh) != only {
+					chain = append(chain, op{K: "failput", Shard: k, On: false}, op{K: "mode", Shard: k, Mode: "rw"})
+				}
+			}
+		}
+		if only {
+			chain = append(chain, op{K: "detach", Shard: sh})
 		}
 		// often another shard runs without metabase while the tombstone arrives
 		// (the lock is then known to a shard WITH metabase, the holder may lack it,
 		// and an unrelated shard cannot answer lock queries)
-		if h.N == 3 && rapid.IntRange(0, 9).Draw(t, "chain-thirddeg") < 6 {
+		if h.N == 3 && !only && rapid.IntRange(0, 9).Draw(t, "chain-thirddeg") < 6 {
 			other := rapid.IntRange(0, h.N-2).Draw(t, "chain-third")
 			if other >= sh {
 				other++
@@ -379,6 +399,10 @@ type run struct {
 	// raced[o]: o was the common target of interleaved lock/tombstone puts
 	raced   map[int]bool
 	lastOp  string
+	// slot maps the history's shard numbers to positions in r.e.Sh (-1: the
+	// shard was evacuated and detached); root is the case directory
+	slot []int
+	root string
 	// known reports (and records) open known-finding classes; excluded counts
 	// objects dropped from the assertion because of them.
 	known    func(string) bool
@@ -462,7 +486,7 @@ func (r *run) hiddenByExpiry(o int, cls string, holders []int) bool {
 // class returns the known-finding class a violation on object o belongs to.
 func (r *run) class(o int) string {
 	switch {
-	case r.raced[o] && r.lastOp == "gc":
+	case r.raced[o] && (r.lastOp == "gc" || r.lastOp == "detach"):
 		// exactly the recorded class: a tombstone interleaved with the lock was
 		// accepted by a shard before the lock reached that shard and was rolled
 		// back (stale garbage mark), the lock was accepted, the object stayed
@@ -633,6 +657,18 @@ func (r *run) exec(i int, o op) {
 	ctx := context.Background()
 	step := fmt.Sprintf("op %d %s", i, o)
 	switch o.K {
+	case "mode", "failput", "gc", "evac", "detach":
+		k := r.slot[o.Shard]
+		if k < 0 {
+			r.trace = append(r.trace, step+" -> skipped, shard detached")
+			return
+		}
+		if k != o.Shard {
+			step += fmt.Sprintf(" [now engine shard %d]", k)
+		}
+		o.Shard = k
+	}
+	switch o.K {
 	case "put":
 		err := r.e.E.Put(ctx, r.objs[o.ID], nil)
 		r.trace = append(r.trace, fmt.Sprintf("%s -> %s", step, errStr(err)))
@@ -780,9 +816,82 @@ func (r *run) exec(i int, o op) {
 		n, err := r.e.E.Evacuate(ctx, []common.ID{r.e.Sh[o.Shard].ID}, false, nil)
 		r.trace = append(r.trace, fmt.Sprintf("%s -> %d, %s", step, n, errStr(err)))
 		r.labels["evacuate"] = true
+	case "detach":
+		if len(r.e.Sh) < 2 {
+			r.trace = append(r.trace, step+" -> skipped, last shard")
+			return
+		}
+		m := r.e.Mode(o.Shard)
+		if !m.ReadOnly() {
+			_ = r.e.SetMode(o.Shard, m|mode.ReadOnly)
+		}
+		n, err := r.e.E.Evacuate(ctx, []common.ID{r.e.Sh[o.Shard].ID}, false, nil)
+		r.labels["evacuate"] = true
+		if err != nil {
+			r.trace = append(r.trace, fmt.Sprintf("%s -> evacuate %d, %s; not detached", step, n, errStr(err)))
+			break
+		}
+		if err := r.detach(o.Shard); err != nil {
+			ev.Inconclusive("C08 engine rebuild: %v", err)
+		}
+		r.labels["evacuate+detach"] = true
+		r.trace = append(r.trace, fmt.Sprintf("%s -> evacuated %d objects; engine restarted over history shards %v (engine shard numbers below are positions in this list)", step, n, r.aliveList()))
 	}
 	r.lastOp = o.K
 	r.checkAll(step)
+}
+
+func (r *run) aliveList() []int {
+	var l []int
+	for h, k := range r.slot {
+		if k >= 0 {
+			l = append(l, h)
+		}
+	}
+	return l
+}
+
+// detach closes the engine and opens a new one over the directories of all
+// shards but engine shard k (as after removing an evacuated disk); modes and
+// injected put failures of the remaining shards are carried over.
+func (r *run) detach(k int) error {
+	type keep struct {
+		m  mode.Mode
+		fp bool
+	}
+	var (
+		kept []keep
+		sp   = engx.Spec{Root: r.root, Epoch: r.e.Ep}
+	)
+	for h, cur := range r.slot {
+		switch {
+		case cur == k:
+			r.slot[h] = -1
+		case cur >= 0:
+			r.slot[h] = len(kept)
+			kept = append(kept, keep{r.e.Mode(cur), r.e.Sh[cur].FailPut})
+			sp.Dirs = append(sp.Dirs, fmt.Sprintf("s%d", h))
+		}
+	}
+	if err := r.e.Close(); err != nil {
+		return err
+	}
+	e, err := engx.Open(sp)
+	if err != nil {
+		return err
+	}
+	e.LogCalls = true
+	r.e = e
+	for i, kp := range kept {
+		if kp.m != mode.ReadWrite {
+			if err := e.SetMode(i, kp.m); err != nil {
+				return err
+			}
+		}
+		e.Sh[i].FailPut = kp.fp
+	}
+	e.SetEpoch(r.epoch)
+	return nil
 }
 
 func (r *run) allHoldersNoMeta(o int) bool {
@@ -813,10 +922,10 @@ func replay(h hist, known func(string) bool) (*run, error) {
 	if err != nil {
 		return nil, err
 	}
-	defer e.Close()
 	e.LogCalls = true
-	r := &run{h: h, e: e, tracked: map[int][]lockRec{}, poisoned: map[int]string{}, orders: map[int]string{},
+	r := &run{h: h, e: e, root: dir, slot: seq(h.N), tracked: map[int][]lockRec{}, poisoned: map[int]string{}, orders: map[int]string{},
 		labels: map[string]bool{}, stage: map[int]int{}, raced: map[int]bool{}, races: map[int]string{}, known: known}
+	defer func() { _ = r.e.Close() }()
 	for _, s := range h.Objs {
 		r.objs = append(r.objs, uni.Build(s))
 	}
